@@ -113,6 +113,12 @@ def oscore_value(rng):
     return v
 
 
+def uriish(rng, n=None):
+    """bytes biased to the characters the URI reconstruction code escapes or treats specially"""
+    n = rng.randint(0, 14) if n is None else n
+    return bytes(rng.choice(b"&&&%%/??=.#ab01 \"\x00\xc3\xa9~+;") if rng.random() < 0.8 else rng.getrandbits(8) for _ in range(n))
+
+
 def block_storm(rng):
     """5..12 Block1 PUTs of one body (same token) whose block numbers arrive sparse and out of order — the received-ranges
     structure has a fixed capacity"""
@@ -152,7 +158,9 @@ def targeted(rng, scen):
         if path == b".well-known":
             opts.append((11, b"core"))
         for num in rng.sample([6, 4, 1, 5, 12, 14, 17, 19, 23, 27, 28, 31, 60, 252, 258, 292, 9, 15, 35, 39, 16, 3, 7], rng.randint(0, 5)):
-            opts.append((num, oscore_value(rng) if num == 9 else uint() if num not in (15, 35, 39, 3) else G.rbytes(rng, rng.randint(0, 12))))
+            opts.append((num, oscore_value(rng) if num == 9 else uint() if num not in (15, 35, 39, 3) else uriish(rng)))
+        if rng.random() < 0.3:
+            opts += [(15, uriish(rng)) for _ in range(rng.randint(1, 3))]     # several Uri-Query options: the reconstructed query string
         if rng.random() < 0.15:
             opts.append((rng.choice([2, 10, 13, 29, 65001, 65535]), G.rbytes(rng, rng.randint(0, 4))))   # unknown, some critical
     if scen != "cli" and rng.random() < 0.25:
